@@ -12,12 +12,15 @@
 #include <unistd.h>
 #include <qhttpengine/localauthmiddleware.h>
 #include <qhttpengine/socket.h>
+#include "localauthmiddleware_p.h"
 using namespace QHttpEngine;
 
 static QString snapFile(const QString &fn, const QString &token)
 {
     struct stat st;
     if (::stat(fn.toUtf8().constData(), &st) != 0) return "x:10:-";
+    // a directory at the name (token `block`) is not the advertised file
+    if (!S_ISREG(st.st_mode)) return "x:10:-";
     QByteArray d;
     d.append(char(1));
     d.append(char((st.st_mode >> 6) & 7)); d.append(char((st.st_mode >> 3) & 7)); d.append(char(st.st_mode & 7));
@@ -44,15 +47,22 @@ void runLauth(const Scn &scn, Out &out)
     mode_t oldmask = umask(022);
     LocalAuthMiddleware *mw = nullptr;
     QString token, prevToken;
+    auto isDir = [&]() { struct stat st; return ::stat(fn.toUtf8().constData(), &st) == 0 && S_ISDIR(st.st_mode); };
     auto readToken = [&]() {
         QFile f(fn);
-        if (f.open(QIODevice::ReadOnly)) { QString t = QJsonDocument::fromJson(f.readAll()).object().value("token").toString(); if (!t.isEmpty()) token = t; }
+        if (!isDir() && f.open(QIODevice::ReadOnly)) { QString t = QJsonDocument::fromJson(f.readAll()).object().value("token").toString(); if (!t.isEmpty()) token = t; }
+        // nothing could be published yet (the open failed): the requests of the scenario still
+        // need "the current token", which then only the instance itself knows
+        if (token.isEmpty() && mw) {
+            LocalAuthMiddlewarePrivate *d = mw->findChild<LocalAuthMiddlewarePrivate*>(QString(), Qt::FindDirectChildrenOnly);
+            if (d) token = d->token;
+        }
     };
     foreach (const QString &t, scn.toks) {
         QStringList p = t.split(':');
         if (p[0] == "umask") umask(p[1].toInt(nullptr, 8));
         else if (p[0] == "pre") {
-            if (!mw) { QFile f(fn); f.open(QIODevice::WriteOnly); f.write("{\"junk\": 1}"); f.close(); chmod(fn.toUtf8().constData(), p[1].toInt(nullptr, 8)); }
+            if (!mw && !isDir()) { QFile f(fn); f.open(QIODevice::WriteOnly); f.write("{\"junk\": 1}"); f.close(); chmod(fn.toUtf8().constData(), p[1].toInt(nullptr, 8)); }
         } else if (p[0] == "create") {
             if (!mw) { prevToken = token; token.clear(); mw = new LocalAuthMiddleware; readToken(); }
         } else if (p[0] == "data") {
@@ -88,11 +98,17 @@ void runLauth(const Scn &scn, Out &out)
                 eventTurn();
             }
         } else if (p[0] == "destroy") { if (mw) { delete mw; mw = nullptr; } }
+        else if (p[0] == "block") {
+            // something that is not a file occupies the advertised name: LocalFile::open() fails
+            struct stat st;
+            if (::lstat(fn.toUtf8().constData(), &st) != 0) ::mkdir(fn.toUtf8().constData(), 0755);
+        } else if (p[0] == "unblock") { if (isDir()) ::rmdir(fn.toUtf8().constData()); }
         else continue;
         obs->append(snapFile(fn, token));
     }
     if (mw) delete mw;
     umask(oldmask);
+    if (isDir()) ::rmdir(fn.toUtf8().constData());
     QFile::remove(fn);
     QDir(home).removeRecursively();
     out.obs << "end";
